@@ -378,7 +378,11 @@ namespace riddle
     public:
       local_field_statement(const std::vector<id_token> &ft, const std::vector<id_token> &ns, const std::vector<const expression *> &es) : field_type(ft), names(ns), xprs(es) {}
       local_field_statement(const local_field_statement &orig) = delete;
-      virtual ~local_field_statement() = default;
+      virtual ~local_field_statement()
+      {
+        for (const auto &xpr : xprs)
+          delete xpr;
+      }
 
     protected:
       const std::vector<id_token> field_type;
